@@ -13,6 +13,7 @@ import (
 // (which tag/dummy feeds which recursive emitter, in which order events happen), not the text.
 
 type genDummy struct {
+	req  string // rendered Require expression ("" when absent)
 	tag  string // rendered Tag expression ("0" when absent)
 	dir  string // "W" → genWriteVar, "R" → genReadVar, "" unknown
 	pos  token.Pos
@@ -58,6 +59,9 @@ func dummiesOf(fd *ast.FuncDecl) []genDummy {
 				for _, el := range cl.Elts {
 					if kv, ok := el.(*ast.KeyValueExpr); ok && exprStr(kv.Key) == "Tag" {
 						d.tag = exprStr(kv.Value)
+					}
+					if kv, ok := el.(*ast.KeyValueExpr); ok && exprStr(kv.Key) == "Require" {
+						d.req = exprStr(kv.Value)
 					}
 				}
 				out = append(out, d)
@@ -209,6 +213,15 @@ func init() {
 				}
 				okk := strings.Join(a, ",") == strings.Join(b, ",") && strings.Join(a, ",") == strings.Join(want, ",")
 				r.Check(okk, where(pair[0]+"/"+pair[1]), "element tags", fns[pair[1]].Pos(), "writer and reader use element tags %v", "element tags differ: writer %v, reader %v (wire format: list elements tag 0, map key 0 / value 1)", a, b)
+			}
+			// G2b elements, parameters and results are always present: every dummy member is Require: true
+			for _, n := range need[2:] {
+				for _, d := range dummiesOf(fns[n]) {
+					if d.dir == "" {
+						continue
+					}
+					r.Check(d.req == "true", where(n), "element/parameter dummy is required", d.pos, "Require: true", "a recursive emitter is fed a member with Require: %s: the optional-member guards (`if v != 0`, `if len(v) > 0`) are then emitted around elements/parameters, so fewer elements are written than announced", d.req)
+				}
 			}
 			// G2 proxy ⇄ dispatcher
 			pd, dd := dummiesOf(fns["genIFProxyFun"]), dummiesOf(fns["genSwitchCase"])
